@@ -196,8 +196,16 @@ theorem lookup_name {cfg : List (String × Mech)} {name n : String} {m : Mech}
     (h : lookup cfg name = some (n, m)) : n = name := by
   unfold lookup at h
   have := List.find?_some h
-  simp only [beq_iff_eq] at this
-  exact this.symm
+  simp only [Bool.and_eq_true, beq_iff_eq] at this
+  exact this.1.symm
+
+/-- a mechanism the receiving side steps is one it can serve (its name does not end in "-PLUS") -/
+theorem lookup_supported {cfg : List (String × Mech)} {name n : String} {m : Mech}
+    (h : lookup cfg name = some (n, m)) : serverSupported n = true := by
+  unfold lookup at h
+  have := List.find?_some h
+  simp only [Bool.and_eq_true, beq_iff_eq] at this
+  exact this.2
 
 theorem sstep_stop {name : String} {mech : Mech} {hist : List Bytes} {p : Payload} {r : SRes}
     (h : sstep name mech hist p = .stop r) (ha : r.authn = true) :
